@@ -526,8 +526,13 @@ def _boundary_safe(t, depth=0):
     if t[0] == "proj":
         # payload of Some(find(..))
         b = t
-        while b[0] == "proj":
-            b = b[1]
+        for _ in range(8):
+            if b[0] == "proj":
+                b = mir.strip_refs(b[1])
+            elif b[0] == "call" and isinstance(b[1], str) and b[1].endswith("Try>::branch") and b[2]:
+                b = mir.strip_refs(b[2][0])     # `text.find(tag)?`
+            else:
+                break
         if b[0] == "call" and isinstance(b[1], str) and b[1].split("::")[-1] in ("find", "rfind"):
             return True
     if t[0] in ("phi",):
